@@ -45,3 +45,10 @@ claim("C12", "proof",
       "the postcondition is the statement's per-item contract and all CBMC memory-safety checks are obligations. Sequences of any length follow by induction over the per-item contract.",
       "Accepted check classes (pointer comparison / subtraction with the cursor beyond the object, shift into the sign bit) are excluded and listed in accepted_ub.json. Trusted: CBMC models of malloc/memcpy/memset.",
       "DESIGN.md 5.C12")
+
+claim("C14", "proof",
+      "CBMC function contract (goto-instrument --dfcc) on the real rf_wavheader_decode over a symbolic byte string of symbolic length in an exactly-sized object; truncation lemma; helper functions on arbitrary structures",
+      "Every byte string of every length below 2^31 is covered by one symbolic query: all reads inside the object, result negative / beyond the input / exactly the walked length >= 44; "
+      "no proper prefix of an accepted header decodes successfully; validate/get_format/tostring raise no CBMC check on any structure contents.",
+      "pack.c callees are inlined here (their contracts are enforced under C12). strdup_printf is external (stubbed). Accepted check classes as C12.",
+      "DESIGN.md 5.C14")
